@@ -1795,6 +1795,20 @@ func runC10(seed uint64, n int, tier string, outDir string) []*Stats {
 	for i := 0; i < nDist; i++ {
 		handle(genDistance(r), buildCfg{MinifyIdent: i%4 == 3}, true, i%3 == 0)
 	}
+	// (1e) replay of the witness of Properties.chunk_order_respects_evaluation_refuted: e0 imports a
+	// private module and then a shared one; ESM runs a, s, e0, the split output s, a, e0
+	{
+		g := &graphCase{scenario: "evaluation-order/private-before-shared", desc: "entry imports a private module, then a shared one"}
+		g.mods = []*mod{
+			{id: 1, name: "e0", user: true, varKW: "let", stmts: []stmt{{kind: kBare, target: 3}, {kind: kBare, target: 4}}},
+			{id: 2, name: "e1", user: true, varKW: "let", stmts: []stmt{{kind: kBare, target: 4}}},
+			{id: 3, name: "m0", varKW: "let"},
+			{id: 4, name: "m1", varKW: "let"},
+		}
+		g.user = []int{1, 2}
+		g.fill(r)
+		handle(g, buildCfg{}, true, true)
+	}
 	// (1d) colliding top-level names in one shared chunk (identifiers not minified)
 	for i := 0; i < n/3+8; i++ {
 		handle(genNames(r), buildCfg{MinifySyntax: i%3 == 1, MinifyWS: i%3 == 1}, true, i%2 == 0)
@@ -1923,6 +1937,24 @@ func evalOracle(p *pendingCase, res []jobResult, st *Stats, tmp string) {
 	for i, sq := range p.seqs {
 		ref := res[p.native[i]]
 		got := res[p.splitJ[i]]
+		if strings.HasPrefix(g.scenario, "evaluation-order/") && len(sq) == 1 && sq[0] == g.user[0] && ref.Err == nil && got.Err == nil {
+			pos := func(log []string, ev string) int {
+				for k, e := range log {
+					if e == ev {
+						return k
+					}
+				}
+				return -1
+			}
+			nat := pos(ref.Log, "m0:start") < pos(ref.Log, "m1:start")
+			spl := pos(got.Log, "m1:start") >= 0 && pos(got.Log, "m1:start") < pos(got.Log, "m0:start")
+			if nat && spl {
+				st.Note("documented reordering reproduced (private module after shared chunk)", g.scenario, true)
+			} else {
+				st.Fail("the evaluation-order witness of the model does not reproduce on the implementation", g.describe(p.cfg, true),
+					map[string]interface{}{"native": ref.Log, "split": got.Log}, "native m0 before m1, split m1 before m0")
+			}
+		}
 		st.Note("oracle split-vs-native", fmt.Sprintf("%p-%d", p, i), len(sq) > 1)
 		if ref.Err != nil {
 			st.Note("oracle reference-error", *ref.Err, false)
